@@ -7,9 +7,10 @@ Everything that is changed or dropped is logged (rules R1..R12 of DESIGN.md sect
 
 Directives (top level)
   //@source NAME = path/under/repo.rs
-  //@expand NAME = SRC :: macro_name!(args)            (R5; virtual source)
-  //@struct SRC :: Name [derive(A, B)]                  (R2 fields pub, R3 derive filter)
+  //@expand NAME = SRC :: macro_name!(args)            (R5; virtual source; `$_` in args matches any one token of the invocation)
+  //@struct SRC :: Name [derive(A, B)] [private]        (R2 fields pub unless `private`, R3 derive filter)
   //@copy SRC :: kind name                              (item verbatim; kind = const|type|fn|enum|struct|static)
+  //@file SRC                                           (whole file verbatim, e.g. inside `#[verifier::external] mod m { }`)
   //@fn SRC :: name          ... //@end                 (free function under contract)
   //@impl SRC :: <impl header> [#k]  ... //@end         (impl block; header compared token-wise)
   //@trait SRC :: Name       ... //@end
@@ -17,7 +18,12 @@ inside impl/trait
   //@extra                 following lines are inserted at the top of the block (spec items)
   //@fn name               function under contract (sections below)
   //@keep name             function copied verbatim, no contract
+  //@inherit SRC :: Trait :: name   (impl blocks) default method `name` of trait `Trait` that this impl inherits is
+                           instantiated here from the trait's text and put under contract (sections as for //@fn); R13
   //@noassoc               do not copy associated consts/types
+  //@hoist NAME => FREE    (impl blocks) R14: the initialiser of associated const NAME is moved verbatim into a free
+                           `pub const FREE` emitted before the block; the associated const becomes `= FREE`
+                           (Verus rejects non-simple initialisers of trait consts and prescribes this form)
 inside fn
   //@ret NAME              name the return value (R8)
   //@header                requires/ensures/decreases lines (spliced between signature and body)
@@ -31,6 +37,8 @@ inside fn
   //@attr text             attribute line emitted before the fn
   //@external_body         body replaced by unimplemented!() + #[verifier::external_body]  (R10; assumption)
   //@sig `text`            replace the signature text (only for R4/R9-style generic removal; logged)
+  //@dropbody              (trait blocks) the default body is removed from the trait declaration, `{..}` => `;` (R13);
+                           every impl that inherits it must instantiate it with //@inherit
 """
 import os
 import re
@@ -78,6 +86,7 @@ class FnSpec:
     sig: str = None
     keep: bool = False
     tail: list = field(default_factory=list)
+    dropbody: bool = False
 
 
 class Out:
@@ -213,6 +222,13 @@ def emit_fn(out, src, item, spec, log, where, canary=False):
     log.functions.append(qual)
     edits = []   # (char_a, char_b, kind, payload) ; a==b for insertions. payload list of (text, vc_line)
     has_body = item.body_open >= 0
+    if spec.dropbody:
+        if not has_body:
+            raise TemplateError("%s: dropbody given but the function has no body" % qual)
+        edits.append((toks[item.body_open].start, toks[item.body_close].end, "replace", [(";", spec.vc_line)]))
+        log.rule("R13", "%s: default body removed from the trait declaration (instantiated in each inheriting impl)" % qual)
+        toks = toks[:item.body_open + 1]      # signature tokens + the `{` where the header goes (replaced by `;`)
+        has_body = False
     if canary and has_body and not spec.external_body and not spec.keep:
         log.canaries += 1
         spec.start = [("        proof { assert(false); } // CANARY %d fn %s" % (log.canaries, item.name), spec.vc_line)] + list(spec.start)
@@ -364,7 +380,7 @@ def _select_block(src, kind, header, k):
     return cands[(k or 1) - 1]
 
 
-def _struct_emit(out, src, item, derives, log):
+def _struct_emit(out, src, item, derives, log, keep_private=False):
     toks = item.toks
     # attributes: filter derive
     attr_text = src.text[item.start:toks[item.attrs_end].start]
@@ -380,10 +396,19 @@ def _struct_emit(out, src, item, derives, log):
     # make fields pub (R2)
     edits = []
     made = []
-    if item.body_open >= 0:
-        i = item.body_open + 1
+    f_lo, f_hi, tuple_like = item.body_open + 1, item.body_close, False
+    if item.body_open < 0:
+        # tuple struct `struct Name(T, U);`: the fields are the first top-level parenthesis group (not `pub(..)`)
+        for j in range(item.attrs_end + 1, len(toks)):
+            if toks[j].kind == "punct" and toks[j].text == "(" and toks[j - 1].text != "pub":
+                f_lo, f_hi, tuple_like = j + 1, match_close(toks, j), True
+                break
+            if toks[j].kind == "punct" and toks[j].text in ("{", ";"):
+                break
+    if (item.body_open >= 0 or tuple_like) and not keep_private:      # `private`: field visibility kept as written (needed for #[verifier::type_invariant])
+        i = f_lo
         expect_field = True
-        while i < item.body_close:
+        while i < f_hi:
             t = toks[i]
             if expect_field:
                 # skip attributes
@@ -392,7 +417,7 @@ def _struct_emit(out, src, item, derives, log):
                 t = toks[i]
                 if t.text != "pub":
                     edits.append(t.start)
-                    made.append(t.text)
+                    made.append(str(len(made)) if tuple_like else t.text)
                 else:
                     if toks[i + 1].text == "(":
                         i = match_close(toks, i + 1)
@@ -403,7 +428,7 @@ def _struct_emit(out, src, item, derives, log):
             if t.text == "<":
                 # skip generic args crudely: commas inside <> must not start a field
                 depth = 0
-                while i < item.body_close:
+                while i < f_hi:
                     if toks[i].text == "<":
                         depth += 1
                     elif toks[i].text == ">":
@@ -414,7 +439,7 @@ def _struct_emit(out, src, item, derives, log):
                         break
                     i += 1
             if toks[i].text == ",":
-                expect_field = i + 1 < item.body_close
+                expect_field = i + 1 < f_hi
             i += 1
     pos = toks[item.attrs_end].start
     if toks[item.attrs_end].text != "pub":
@@ -485,10 +510,32 @@ def build(vc_path, repo_root, defines=None, canary=False):
             return
         toks = item.toks
         where = "%s::%s" % (src.path, " ".join(norm(item.header())) if b["kind"] == "impl" else item.name)
+        # R14: `//@hoist NAME => FREE_NAME`: Verus accepts only simple expressions as initialisers of trait consts;
+        # the initialiser is moved verbatim into a free `pub const FREE_NAME` and the associated const becomes `= FREE_NAME`
+        hoisted = {}
+        if b.get("hoist"):
+            for sub in split_items(toks[item.body_open + 1:item.body_close]):
+                if sub.kind == "const" and sub.name in b["hoist"]:
+                    st = sub.toks
+                    colon = next(k for k, t in enumerate(st) if k > sub.attrs_end and t.text == ":")
+                    eq = next(k for k, t in enumerate(st) if k > colon and t.text == "=")
+                    if "Self" in [t.text for t in st[colon + 1:]]:
+                        raise TemplateError("%s: cannot hoist const %s: it mentions Self" % (where, sub.name))
+                    new = b["hoist"][sub.name]
+                    out.vc("pub const %s: " % new, b["line"])
+                    out.repo(src, st[colon + 1].start, st[eq - 1].end)
+                    out.raw(" = ")
+                    out.repo(src, st[eq + 1].start, st[-1].end)
+                    out.raw("\n")
+                    hoisted[sub.name] = (st[eq].end, new)
+                    log.rule("R14", "%s: initialiser of const %s hoisted into free const %s" % (where, sub.name, new))
+            for nm in b["hoist"]:
+                if nm not in hoisted:
+                    raise TemplateError("const %s not found in %s" % (nm, where))
         # header
         if b.get("hdr"):
             out.vc(b["hdr"] + " {\n", b["line"])
-            log.rule("R9", "%s: block header replaced by `%s`" % (where, b["hdr"]))
+            log.rule(b.get("hdr_rule") or "R9", "%s: block header replaced by `%s`" % (where, b["hdr"]))
         else:
             out.repo(src, toks[item.attrs_end].start, toks[item.body_open].end)
             out.raw("\n")
@@ -504,12 +551,26 @@ def build(vc_path, repo_root, defines=None, canary=False):
                     continue
                 seen.add(sub.name)
                 emit_fn(out, src, sub, spec, log, where, canary)
+            elif sub.kind == "const" and sub.name in hoisted:
+                out.repo(src, sub.start, hoisted[sub.name][0])
+                out.raw(" %s;\n" % hoisted[sub.name][1])
             elif not b["noassoc"]:
                 out.repo(src, sub.start, sub.end)
                 out.raw("\n")
         for name in b["fns"]:
             if name not in seen:
                 raise TemplateError("fn %s not found in %s" % (name, where))
+        for (isrc, tname, spec) in b.get("inherit", []):
+            tr = [it for it in isrc.items if it.kind == "trait" and it.name == tname]
+            if not tr:
+                raise TemplateError("trait %s not found in %s" % (tname, isrc.path))
+            subs = [x for x in split_items(tr[0].toks[tr[0].body_open + 1:tr[0].body_close]) if x.kind == "fn" and x.name == spec.name]
+            if not subs or subs[0].body_open < 0:
+                raise TemplateError("trait %s has no default method %s in %s" % (tname, spec.name, isrc.path))
+            if any(x.kind == "fn" and x.name == spec.name for x in inner):
+                raise TemplateError("%s defines %s itself; //@inherit does not apply" % (where, spec.name))
+            log.rule("R13", "%s: inherited default method %s::%s instantiated in the impl" % (where, tname, spec.name))
+            emit_fn(out, isrc, subs[0], spec, log, where, canary)
         out.raw("}\n")
 
     while i < n:
@@ -536,7 +597,7 @@ def build(vc_path, repo_root, defines=None, canary=False):
                 cur_sec.append((line, lineno))
             elif block is not None:
                 if s:
-                    raise TemplateError("%s:%d: text inside a block but outside a section" % (vc_path, lineno))
+                    raise TemplateError("%s: %s: text inside a block but outside a section" % (vc_path, lineno))
             else:
                 out.vc(line + "\n", lineno)
             continue
@@ -558,16 +619,34 @@ def build(vc_path, repo_root, defines=None, canary=False):
                 base = get_src(sname)
                 mm = re.match(r"(\w+)\s*!\s*[\(\[\{](.*)[\)\]\}]\s*;?$", call, re.S)
                 if not mm:
-                    raise TemplateError("%s:%d: bad expand" % (vc_path, lineno))
+                    raise TemplateError("%s: %s: bad expand" % (vc_path, lineno))
                 mname, args = mm.group(1), mm.group(2)
                 defs = [it for it in base.root.items if it.kind == "macro_rules" and it.name == mname]
                 if not defs:
                     raise TemplateError("macro %s not found in %s" % (mname, base.path))
-                # the invocation must exist in the file (what rustc expands)
+                # the invocation must exist in the file (what rustc expands); `$_` in the directive stands for exactly
+                # one token of the invocation (the expansion then uses the invocation's own argument text)
+                def _args_match(ct, pt):
+                    ci = pi = 0
+                    while pi < len(pt):
+                        if pt[pi] == "$" and pi + 1 < len(pt) and pt[pi + 1] == "_":
+                            if ci >= len(ct):
+                                return False
+                            ci += 1; pi += 2
+                        elif ci < len(ct) and ct[ci] == pt[pi]:
+                            ci += 1; pi += 1
+                        else:
+                            return False
+                    return ci == len(ct)
                 calls = [it for it in base.items if it.kind == "macro_call" and it.name == mname
-                         and norm(it.toks[it.body_open + 1:it.body_close]) == norm(args)]
+                         and _args_match(norm(it.toks[it.body_open + 1:it.body_close]), norm(args))]
                 if not calls:
                     raise TemplateError("invocation %s!(%s) not found in %s" % (mname, args, base.path))
+                if "$" in norm(args):
+                    if len(calls) > 1:
+                        raise TemplateError("invocation pattern %s!(%s) is ambiguous in %s (%d matches)" % (mname, args, base.path, len(calls)))
+                    c0 = calls[0]
+                    args = base.text[c0.toks[c0.body_open + 1].start:c0.toks[c0.body_close - 1].end]
                 try:
                     text, lm = macroexp.expand(base.root.text, defs[0], args)
                 except macroexp.MacroError as e:
@@ -581,7 +660,7 @@ def build(vc_path, repo_root, defines=None, canary=False):
                 if not its:
                     raise TemplateError("struct %s not found in %s" % (mm.group(2), src.path))
                 derives = None if mm.group(3) is None else [x.strip() for x in mm.group(3).split(",") if x.strip()]
-                _struct_emit(out, src, its[0], derives, log)
+                _struct_emit(out, src, its[0], derives, log, keep_private=bool(re.search(r"(?:^|\s)private\s*$", rest)))
             elif word == "copy":
                 mm = re.match(r"(\S+)\s*::\s*(\w+)\s+(\w+)", rest)
                 src = get_src(mm.group(1))
@@ -590,6 +669,13 @@ def build(vc_path, repo_root, defines=None, canary=False):
                     raise TemplateError("%s %s not found in %s" % (mm.group(2), mm.group(3), src.path))
                 out.repo(src, its[0].toks[its[0].attrs_end].start, its[0].end)
                 out.raw("\n")
+            elif word == "file":
+                # whole repo file verbatim (e.g. as the body of a `#[verifier::external] mod m { ... }` written in
+                # the template: rustc expands its macros / evaluates its consts itself, Verus does not look inside)
+                src = get_src(rest.strip())
+                out.repo(src, 0, len(src.text))
+                out.raw("\n")
+                log.rule("R1", "%s copied whole (verbatim, unverified surrounding code)" % src.path)
             elif word in ("fn", "impl", "trait"):
                 sname, hdr = [x.strip() for x in rest.split("::", 1)]
                 src = get_src(sname)
@@ -604,7 +690,7 @@ def build(vc_path, repo_root, defines=None, canary=False):
                     block["fns"][item.name] = cur_fn
                     cur_sec = None
             else:
-                raise TemplateError("%s:%d: unknown directive %s" % (vc_path, lineno, word))
+                raise TemplateError("%s: %s: unknown directive %s" % (vc_path, lineno, word))
             continue
         # inside a block
         if word == "end":
@@ -618,17 +704,31 @@ def build(vc_path, repo_root, defines=None, canary=False):
         if word == "noassoc":
             block["noassoc"] = True
             continue
-        if word == "blockheader":
+        if word == "hoist":
+            hn, hnew = [x.strip() for x in rest.split("=>", 1)]
+            block.setdefault("hoist", {})[hn] = hnew
+            continue
+        m_bh = re.fullmatch(r"blockheader(?:\[(\w+)\])?", word)
+        if m_bh:
             block["hdr"] = rest
+            block["hdr_rule"] = m_bh.group(1) or "R9"      # `//@blockheader[R4] impl Foo<T>`: rule tag for the log
             continue
         if word in ("fn", "keep") and block["kind"] != "fn":
             close_fn()
             cur_fn = FnSpec(rest, lineno, keep=(word == "keep"))
             block["fns"][rest] = cur_fn
             continue
+        if word == "inherit" and block["kind"] == "impl":
+            close_fn()
+            sname, tname, fname = [x.strip() for x in rest.split("::")]
+            cur_fn = FnSpec(fname, lineno)
+            block.setdefault("inherit", []).append((get_src(sname), tname, cur_fn))
+            continue
         if cur_fn is None:
-            raise TemplateError("%s:%d: directive %s outside a fn section" % (vc_path, lineno, word))
-        if word == "ret":
+            raise TemplateError("%s: %s: directive %s outside a fn section" % (vc_path, lineno, word))
+        if word == "dropbody":
+            cur_fn.dropbody = True
+        elif word == "ret":
             cur_fn.ret = rest
             cur_sec = None
         elif word == "header":
@@ -650,7 +750,7 @@ def build(vc_path, repo_root, defines=None, canary=False):
         elif m_rw:
             pats, k = _parse_pat_args(rest, lineno)
             if len(pats) != 2:
-                raise TemplateError("%s:%d: rewrite needs `from` => `to`" % (vc_path, lineno))
+                raise TemplateError("%s: %s: rewrite needs `from` => `to`" % (vc_path, lineno))
             cur_fn.rewrites.append((m_rw.group(1), pats[0], pats[1], k, lineno))
             cur_sec = None
         elif word == "attr":
@@ -660,7 +760,7 @@ def build(vc_path, repo_root, defines=None, canary=False):
         elif word == "sig":
             cur_fn.sig = _pat_re.findall(rest)[0]
         else:
-            raise TemplateError("%s:%d: unknown directive %s" % (vc_path, lineno, word))
+            raise TemplateError("%s: %s: unknown directive %s" % (vc_path, lineno, word))
     if block is not None:
         raise TemplateError("%s: unterminated block" % vc_path)
     text, origins = out.finish()
